@@ -5,7 +5,7 @@
    shape) are in Merkle/Tree.v and Merkle/Ref.v; the verifiers transliterated from
    embedded/ahtree/verification.go and embedded/htree/htree.go are in Merkle/Verify.v. *)
 From V Require Import Merkle.Verify Merkle.Sound Merkle.Levels Merkle.Honest Merkle.Exact Merkle.RefEq Merkle.Main.
-From V Require Import Merkle.RefPath Merkle.HExact Merkle.AHT Merkle.AHTArith Merkle.AHTSpec Merkle.AHTInv Merkle.AHTIncl Merkle.AHTCons Merkle.ConsComplete Merkle.ConsExact Merkle.AHTMain.
+From V Require Import Merkle.RefPath Merkle.HExact Merkle.AHT Merkle.AHTArith Merkle.AHTSpec Merkle.AHTInv Merkle.AHTIncl Merkle.AHTCons Merkle.ConsComplete Merkle.ConsExact Merkle.AHTMain Merkle.InclUnique Merkle.LastIncl.
 
 (* The reference tree over a non-empty list of payloads has exactly those payloads as leaves, in
    order (so `mth L` commits to L and to nothing else). *)
@@ -270,3 +270,59 @@ Theorem C08_consistency_sound_exact_honest_length :
     (iroot = mth H (firstn (N.to_nat i) L) /\ 1 <= i <= j) \/ Collision H.
 Proof. exact consistency_sound_exact_len. Qed.
 Print Assumptions C08_consistency_sound_exact_honest_length.
+
+(* Against an ARBITRARY root (not assumed to be the root of any genuine tree): since
+   ahtree.VerifyInclusion pins the proof length as a function of (i, j) (/repo c59ab5b), two accepted
+   proofs for the same position and root carry the same payload AND are the same proof, or a
+   collision is exhibited: a root commits every position to at most one leaf. *)
+Theorem C08_ahtree_inclusion_proof_unique :
+  forall (H : bytes -> bytes), (forall x, length (H x) = 32%nat) ->
+  forall (t1 t2 : list bytes) (i j : N) (a b root : bytes),
+    len32 t1 -> len32 t2 ->
+    verify_inclusion H t1 i j (leafh H a) root = true ->
+    verify_inclusion H t2 i j (leafh H b) root = true ->
+    (a = b /\ t1 = t2) \/ Collision H.
+Proof. exact inclusion_unique. Qed.
+Print Assumptions C08_ahtree_inclusion_proof_unique.
+
+(* The same for ahtree.VerifyLastInclusion (length pinned to inclusionProofLen(i, i)). *)
+Theorem C08_ahtree_last_inclusion_proof_unique :
+  forall (H : bytes -> bytes), (forall x, length (H x) = 32%nat) ->
+  forall (t1 t2 : list bytes) (i : N) (a b root : bytes),
+    len32 t1 -> len32 t2 ->
+    verify_last_inclusion H t1 i (leafh H a) root = true ->
+    verify_last_inclusion H t2 i (leafh H b) root = true ->
+    (a = b /\ t1 = t2) \/ Collision H.
+Proof. exact last_inclusion_unique. Qed.
+Print Assumptions C08_ahtree_last_inclusion_proof_unique.
+
+(* ahtree.VerifyLastInclusion(p, i, leaf, root) IS ahtree.VerifyInclusion(p, i, i, leaf, root), for
+   ALL inputs (same length test, and with i1 = j1 every term is hashed on the left). *)
+Theorem C08_last_inclusion_is_inclusion :
+  forall (H : bytes -> bytes) (terms : list bytes) (i : N) (leaf root : bytes),
+    verify_last_inclusion H terms i leaf root = verify_inclusion H terms i i leaf root.
+Proof. exact last_is_inclusion. Qed.
+Print Assumptions C08_last_inclusion_is_inclusion.
+
+(* hence exact soundness against the genuine (size, root) pair ... *)
+Theorem C08_ahtree_last_inclusion_sound_exact :
+  forall (H : bytes -> bytes), (forall x, length (H x) = 32%nat) ->
+  forall (L : list bytes) (terms : list bytes) (i : N) (d : bytes),
+    L <> [] -> i = N.of_nat (length L) -> len32 terms ->
+    verify_last_inclusion H terms i (leafh H d) (mth H L) = true ->
+    nth_error L (N.to_nat (i - 1)) = Some d \/ Collision H.
+Proof. exact last_inclusion_sound_exact. Qed.
+Print Assumptions C08_ahtree_last_inclusion_sound_exact.
+
+(* ... and completeness on the tree: InclusionProof(i, i) verifies with VerifyLastInclusion against
+   RootAt(i), for every history. *)
+Theorem C08_aht_last_inclusion_proof_verifies :
+  forall (H : bytes -> bytes), (forall x, length (H x) = 32%nat) ->
+  forall (ops : list aop) (i : N) (d : bytes),
+    let t := aht_run H ops in
+    1 <= i -> i <= size t ->
+    nth_error (final_payloads ops) (N.to_nat (i - 1)) = Some d ->
+    exists p r, inclusion_proof t i i = Ok p /\ root_at t i = Ok r /\
+                verify_last_inclusion H p i (leafh H d) r = true.
+Proof. exact aht_last_inclusion_proof_verifies. Qed.
+Print Assumptions C08_aht_last_inclusion_proof_verifies.
